@@ -38,7 +38,7 @@ func c07Check(cs c07Case) (msg string, skip bool) {
 
 // terms and entries overlap through a version family; two references differ only in letter case
 // (reference names are case-sensitive, so they are different licenses that a coarse key would merge)
-var c07Terms = []string{"GPL-2.0", "GPL-3.0-only", "MIT", "Apache-2.0+", "LicenseRef-a", "LicenseRef-A"}
+var c07Terms = []string{"GPL-2.0", "GPL-3.0-only", "MIT", "Apache-2.0+", "LicenseRef-a", "LicenseRef-A", "GPL-2.0 WITH Bison-exception-2.2"}
 var c07Entries = []string{"GPL-1.0-or-later", "GPL-2.0-only", "GPL-3.0", "MIT", "Apache-2.0", "LicenseRef-a", "Zlib", "GPL-2.0 WITH Bison-exception-2.2", "LicenseRef-A"}
 
 // respellings of one allowed entry that denote the same license
@@ -89,7 +89,7 @@ func init() {
 		ID:       "C07",
 		Title:    "the allowed list behaves as a set and the verdict is monotone in it",
 		Explorer: "E1 bounded-exhaustive expression x allowed-list enumeration, relational oracle between calls (set equality, re-spelling, inclusion)",
-		Rule: "expressions: every tree <= 3 leaves over 6 terms (family-overlapping ids, two references differing only in case) (two renderings coincide semantically; full parenthesisation used); allowed lists: every list of length <= k with repetition over 9 entries (all permutations and duplications of every set of <= k entries); " +
+		Rule: "expressions: every tree <= 3 leaves over 7 terms (family-overlapping ids, two references differing only in case) (two renderings coincide semantically; full parenthesisation used); allowed lists: every list of length <= k with repetition over 9 entries (all permutations and duplications of every set of <= k entries); " +
 			"oracles: lists with the same set of entries give the same verdict; replacing an entry by any re-spelling (case, spaces, parentheses, -only, exception case) keeps it; A subset B => (sat(A) => sat(B)) for all enumerated sets; " +
 			"state = (expression, list), one transition each; non-trivial = lists with a repeated entry or more than one ordering (length >= 2) whose verdict is 'true' for at least one and whose expression has >= 2 distinct terms",
 		Assumptions: []string{"differential: no reference model", "X-only as a re-spelling of X relies on C08's equivalence"},
@@ -341,8 +341,9 @@ func c07Space(c *Ctx, spaceName string, c07Terms, c07Entries []string, maxLeaves
 				}
 			}
 			// re-spellings: every list of length <= 2, every position, every re-spelling
+			// (expressions of up to 2 leaves: the spelling of an entry does not interact with tree shape)
 			for _, l := range lists {
-				if len(l.idx) > 2 {
+				if len(l.idx) > 2 || t.Leaves() > 2 {
 					continue
 				}
 				base := mk(l.idx)
